@@ -28,10 +28,12 @@ def hInsert : Stmt :=
   helper "insert" [callColl "namespace" .insert (some "list"), ifErrReturn, append, ifErrReturn, retOk]
 
 def hInsertBulk : Stmt :=
-  helper "insert" [callColl "namespace" .insert (some "ops"), ifErrReturn, append, ifErrReturn, retOk]
+  helper "insert" [callColl "namespace" .insert (some "doc"), ifErrReturn, append, ifErrReturn, retOk]
 
-def hReplace (doc : Var) : Stmt :=
+def hReplace (doc q : Var) : Stmt :=
   helper "replace" [
+    -- since /repo e6de740: an upsert takes values from the filter, so the filter is copied first
+    ite (both (test "upsert") (test "query != nil")) [cloneDocs "query" q] [],
     callColl "namespace" .replace (some doc), ifErrReturn,
     ite (both (test "len(res.Matched) == 0") (test "upsert")) [
       callColl "namespace" .upsert (some doc), ifErrReturn,
@@ -40,8 +42,11 @@ def hReplace (doc : Var) : Stmt :=
     ite (test "len(res.Modified) > 0") [append, ifErrReturn] [],
     retOk]
 
-def hUpdate : Stmt :=
+def hUpdate (u q : Var) : Stmt :=
   helper "update" [
+    -- since /repo e6de740: the operators store values of the update document, upserts values of the filter
+    ite (test "update != nil") [cloneDocs "update" u] [],
+    ite (both (test "upsert") (test "query != nil")) [cloneDocs "query" q] [],
     callColl "namespace" .update none, ifErrReturn,
     ite (both (test "len(res.Matched) == 0") (test "upsert")) [
       callColl "namespace" .upsert none, ifErrReturn,
@@ -98,8 +103,8 @@ def pBulk : Prog :=
       cloneColl "namespace" (ns "clone" param),
       cloneColl "oplog" (ns "clone" oplog),
       ite (test "op.Opcode == Insert") [hInsertBulk] [
-      ite (test "op.Opcode == Replace") [hReplace "ops"] [
-      ite (test "op.Opcode == Update") [hUpdate] [
+      ite (test "op.Opcode == Replace") [hReplace "ops" "ops"] [
+      ite (test "op.Opcode == Update") [hUpdate "ops" "ops"] [
       ite (test "op.Opcode == Delete") [hDelete] [
       fail]]]],
       ite err [ite (test "ordered") [brk] [cont]] [],
@@ -114,7 +119,7 @@ def pReplace : Prog :=
     cloneDocs "repl" "repl",
     cloneCatalog "clone" "t.catalog",
     createOrClone] ++ cloneOplog ++ [
-    hReplace "repl", ifErrReturn,
+    hReplace "repl" "query", ifErrReturn,
     ite (either (test "len(res.Modified) > 0") (test "res.Upserted != nil")) publish [],
     retOk]
 
@@ -123,7 +128,7 @@ def pUpdate : Prog :=
     ite (both (isNil (ns "t.catalog" param)) (neg (test "upsert"))) [retOk] [],
     cloneCatalog "clone" "t.catalog",
     createOrClone] ++ cloneOplog ++ [
-    hUpdate, ifErrReturn,
+    hUpdate "update" "query", ifErrReturn,
     ite (either (test "len(res.Modified) > 0") (test "res.Upserted != nil")) publish [],
     retOk]
 
